@@ -4,8 +4,8 @@ from common import *
 import decl, gen, pktcases, pktprops
 
 PID = 'C18'
-TARGETS = ['Properties/C18.vo', 'Bridge/RegexpBridge.vo', 'Bridge/FragBridge.vo']
-KERNELS = ['G12_regexp', 'G12b_regexp_frags', 'G12c_regexp_packet', 'G12d_pattern_matching', 'G1_frag']
+TARGETS = ['Properties/C18.vo', 'Bridge/RegexpBridge.vo', 'Bridge/FragBridge.vo', 'Bridge/MiscFieldBridge.vo', 'Bridge/MiscStructRegexpBridge.vo']
+KERNELS = ['G12_regexp', 'G12b_regexp_frags', 'G12c_regexp_packet', 'G12d_pattern_matching', 'G1_frag', 'G20d_field_misc', 'G20e_structural_regexp']
 PROP_FILE = 'Properties/C18.v'
 
 HEADER_COQ = """From Coq Require Import ZArith List Bool.
